@@ -111,6 +111,13 @@ def oracle_c03(cid, impl, m):
         return _hang(impl, m)
     if "res" not in impl:
         return None          # over the harness's storage-call budget (legitimately: the model needs that many too)
+    # faults raised inside the storage layer (a stored row that cannot be decoded): judged against the
+    # implementation's own fault-free answer
+    if impl.get("x_poison") and impl.get("x_base"):
+        for pr in impl["x_poison"].split(","):
+            v = _c03_one(pr, {"res0": impl["x_base"]})
+            if v is not True:
+                return (v[0], "with one stored row undecodable (driver error while rows are fetched): " + v[1])
     if "res" not in m or "res0" not in m:
         return None
     for key in ("res", "cres"):
@@ -1012,7 +1019,7 @@ PROPS = {
                      "Keto.C03_and_error_not_member", "Keto.C03_error_never_member", "Keto.C03_checkIsMember_true",
                      "Keto.build_err_not_member"],
         "streams": [{"name": "engine-c03", "n": {"quick": 150, "thorough": 1500}, "oracle": oracle_c03, "thorough_seeds": 3}],
-        "rule": ENGINE_RULE + "; for every generated case the k-th storage call fails for every k up to min(N,14), transiently and persistently",
+        "rule": ENGINE_RULE + "; for every generated case the k-th storage call fails for every k up to min(N,14), transiently and persistently; and each case is re-run with one stored row at a time made undecodable, so that the queries that fetch it fail while rows are scanned (a fault below the Manager/Traverser interface)",
         "partial": "",
         "assumptions": [],
     },
